@@ -29,6 +29,11 @@ def _concrete_list(a):
 
 
 class Series:
+
+    def __getattr__(self, attr):
+        from .ctx import unknown_attr
+
+        return unknown_attr("pandas.Series", attr, ("calls", "fn", "fv", "fsec", "fns", "fnat", "ns", "secs", "base", "off", "is_input", "name", "readonly", "telescopes", "diff_of", "frame"))
     __hash__ = None
     __array_priority__ = 1000
 
@@ -96,6 +101,11 @@ class Series:
 
 
 class Rolling:
+
+    def __getattr__(self, attr):
+        from .ctx import unknown_attr
+
+        return unknown_attr("pandas.core.window.rolling.Rolling", attr, ("calls", "fn", "fv", "fsec", "fns", "fnat", "ns", "secs", "base", "off", "is_input", "name", "readonly", "telescopes", "diff_of", "frame"))
     def __init__(self, series, window, min_periods):
         c = cur()
         c.use("pandas.Series.rolling(time window).std/apply")
@@ -249,6 +259,11 @@ def period_value(name, tns):
 class Timestamp:
     """pd.Timestamp(x) for a datetime64[ns] scalar"""
 
+    def __getattr__(self, attr):
+        from .ctx import unknown_attr
+
+        return unknown_attr("pandas.Timestamp", attr, ("calls", "fn", "fv", "fsec", "fns", "fnat", "ns", "secs", "base", "off", "is_input", "name", "readonly", "telescopes", "diff_of", "frame"))
+
     __hash__ = object.__hash__  # identity: window bounds are dictionary-key material in Config.contexts
 
     def __bool__(self):
@@ -360,7 +375,9 @@ class DatetimeIndex:
         if name in _PERIOD_NAMES:
             g = self.arr.getter()
             return IntIndex(Arr(self.arr.n, "i", lambda i: (False, period_value(name, g(i)[1]))))
-        raise AttributeError(name)
+        from .ctx import unknown_attr
+
+        return unknown_attr("pandas.DatetimeIndex", name, ("calls", "fn", "fv", "fsec", "fns", "fnat", "ns", "secs", "base", "off", "is_input", "name", "frame"))
 
     def _cmp(self, o, op):
         if isinstance(o, Timestamp):
@@ -392,6 +409,11 @@ class DatetimeIndex:
 
 class IntIndex:
     """pd.Index of integers: comparisons give plain boolean ndarrays"""
+
+    def __getattr__(self, attr):
+        from .ctx import unknown_attr
+
+        return unknown_attr("pandas.Index", attr, ("calls", "fn", "fv", "fsec", "fns", "fnat", "ns", "secs", "base", "off", "is_input", "name", "readonly", "telescopes", "diff_of", "frame"))
 
     __hash__ = None
     __array_priority__ = 1000
@@ -429,6 +451,11 @@ class IntIndex:
 class IntSeries:
     """Series of integers: comparisons give boolean Series"""
 
+    def __getattr__(self, attr):
+        from .ctx import unknown_attr
+
+        return unknown_attr("pandas.Series", attr, ("calls", "fn", "fv", "fsec", "fns", "fnat", "ns", "secs", "base", "off", "is_input", "name", "readonly", "telescopes", "diff_of", "frame"))
+
     __hash__ = None
     __array_priority__ = 1000
 
@@ -459,6 +486,11 @@ class IntSeries:
 class BoolSeries:
     """boolean Series.  `series & masked_array` (measured, numpy 1.26 / pandas 3.0): the result is
     a boolean Series that is True wherever the masked array is masked and `s & data` elsewhere."""
+
+    def __getattr__(self, attr):
+        from .ctx import unknown_attr
+
+        return unknown_attr("pandas.Series", attr, ("calls", "fn", "fv", "fsec", "fns", "fnat", "ns", "secs", "base", "off", "is_input", "name", "readonly", "telescopes", "diff_of", "frame"))
 
     __hash__ = None
     __array_priority__ = 1000
@@ -520,6 +552,11 @@ PD.Index = _index_ctor
 class TimedeltaIndex:
     """pd.to_timedelta(timedelta64 array): .seconds is the seconds *within the day* (0..86399),
     .days the whole days, .total_seconds() the total"""
+
+    def __getattr__(self, attr):
+        from .ctx import unknown_attr
+
+        return unknown_attr("pandas.TimedeltaIndex", attr, ("calls", "fn", "fv", "fsec", "fns", "fnat", "ns", "secs", "base", "off", "is_input", "name", "readonly", "telescopes", "diff_of", "frame"))
 
     __hash__ = None
 
